@@ -40,7 +40,7 @@
 #endif
 
 extern long verif_alloc_count, verif_alloc_arm;
-extern int verif_alloc_fired;
+extern int verif_alloc_fired, verif_alloc_suspend;
 extern const char *verif_alloc_fired_file;
 extern int verif_alloc_fired_line;
 
@@ -269,6 +269,7 @@ typedef struct ctx {
     int err;			/* errno sampled after the call */
     int skipped;
     const char *skip_why;
+    int force_failed;		/* composite op: an inner call failed */
 } ctx_t;
 
 static const char *errno_name(int e)
@@ -673,6 +674,7 @@ static void end_case(void)
 	_exit(4);
 }
 
+static int will_retry = 0;
 static void emit_event(ctx_t *c, int faulted, long a0, long a1)
 {
     sb_t line = {0};
@@ -696,6 +698,8 @@ static void emit_event(ctx_t *c, int faulted, long a0, long a1)
     }
 #ifdef VERIF_FAILALLOC
     sb_printf(&line, ",\"a0\":%ld,\"a1\":%ld", a0, a1);
+    if (will_retry)
+	sb_puts(&line, ",\"retried\":true");
     if (faulted) {
 	sb_printf(&line, ",\"fault\":\"%s:%d\"",
 		verif_alloc_fired_file ? verif_alloc_fired_file : "?",
@@ -807,6 +811,7 @@ retry:
 	c->err = 0;
 	c->skipped = 0;
 	c->skip_why = NULL;
+	c->force_failed = 0;
 	sb_reset(&c->ret);
 	sb_reset(&c->out);
 	sb_reset(&cb_json);
@@ -826,8 +831,16 @@ retry:
 	int faulted = verif_alloc_fired;
 	if (faulted)
 	    verif_alloc_arm = 0;
+	int failed = c->ret.n > 0 && (strcmp(c->ret.s, "-1") == 0 ||
+		strcmp(c->ret.s, "null") == 0 ||
+		strncmp(c->ret.s, "Infinity", 8) == 0 ||
+		strncmp(c->ret.s, "[Infinity", 9) == 0);
+	if (c->force_failed)
+	    failed = 1;
+	will_retry = faulted && failed && fault_retry && copy != NULL;
 	emit_event(c, faulted, a0, a1);
-	if (faulted && fault_retry && copy != NULL) {
+	if (will_retry) {
+	    will_retry = 0;
 	    /* re-execute the same line once with the fault disarmed */
 	    memcpy(line, copy, strlen(copy) + 1);
 	    free(copy);
